@@ -1,5 +1,5 @@
 SPECIFICATION Spec
-CONSTANT Inst <- InstThoroughWideA
+CONSTANT Inst <- InstThoroughWideB
 INVARIANT TypeOK
 INVARIANT RowsArePassingQnames
 INVARIANT CellSemantics
